@@ -119,11 +119,14 @@ func classify(err error) string {
 	if dig.IsCycleDetected(err) {
 		return ClCycle
 	}
-	root := dig.RootCause(err)
+	// a failure of user code is recognised anywhere in the chain (the error
+	// may itself wrap a dig.Error from another container; what RootCause
+	// makes of it is C13's business, not the verdict class's)
 	var ue *UserErr
-	if errors.As(root, &ue) {
+	if errors.As(err, &ue) {
 		return ClUser
 	}
+	root := dig.RootCause(err)
 	var pe dig.PanicError
 	if errors.As(root, &pe) {
 		return ClPanicErr
